@@ -473,3 +473,236 @@ Proof.
       * rewrite XY at 1. rewrite Qabs_Qmult, (Qabs_pos (c_scale c)) by lra. reflexivity.
     + intro HE. rewrite HE. symmetry. exact XY.
 Qed.
+
+(* ---- print idempotence through the reader ------------------------------------------------------- *)
+(* hypothesis for the RF-delay column: the re-read delay is on the RF raster *)
+Definition on_raster (rfr : Q) (c : col) (t : Q) : Prop :=
+  if (c_pre c =? 2)%Z then inject_Z (rnd_he (t * c_scale c / rfr)) * rfr == t * c_scale c else True.
+
+Theorem col_print_idem rfr c x :
+  col_ok c = true -> on_raster rfr c (wcol rfr c x) ->
+  wcol rfr c (rcol c (wcol rfr c x)) = wcol rfr c x.
+Proof.
+  unfold col_ok. intros H OR. apply orb_true_iff in H. destruct H as [H|R]; [apply orb_true_iff in H; destruct H as [I|S]|].
+  - pose proof I as I0. unfold is_int_col in I. apply andb_true_iff in I. destruct I as [_ SK].
+    destruct (scale_ok_spec c SK) as [MS _].
+    rewrite (wcol_int rfr c _ I0). rewrite (wcol_int rfr c x I0). unfold rcol.
+    set (z := rnd_he (x * c_mult c)).
+    assert (E : inject_Z z * c_scale c * c_mult c == inject_Z z).
+    { setoid_replace (inject_Z z * c_scale c * c_mult c) with (inject_Z z * (c_mult c * c_scale c)) by ring. rewrite MS. ring. }
+    rewrite (rnd_he_Proper _ _ E), rnd_he_inject. reflexivity.
+  - unfold is_sig_col in S. apply andb_true_iff in S. destruct S as [S SK].
+    apply andb_true_iff in S. destruct S as [S P1]. apply andb_true_iff in S. destruct S as [F P2].
+    apply negb_true_iff in P1. apply negb_true_iff in P2.
+    destruct (scale_ok_spec c SK) as [MS _].
+    rewrite (wcol_sig rfr c _ F), (wcol_sig rfr c x F), P2, P1. unfold rcol.
+    set (n := c_fmt c). set (t := fmt_sig n (x * c_mult c)).
+    assert (E : t * c_scale c * c_mult c == t).
+    { setoid_replace (t * c_scale c * c_mult c) with (t * (c_mult c * c_scale c)) by ring. rewrite MS. ring. }
+    rewrite (fmt_sig_Proper n _ _ E). apply fmt_sig_idem. apply Z.ltb_lt in F. unfold n. lia.
+  - unfold is_raster_col in R. apply andb_true_iff in R. destruct R as [R SK].
+    apply andb_true_iff in R. destruct R as [F P2].
+    destruct (scale_ok_spec c SK) as [MS _].
+    unfold on_raster in OR. rewrite P2 in OR.
+    rewrite (wcol_sig rfr c x F), P2 in OR |- *. rewrite (wcol_sig rfr c _ F), P2. unfold rcol in *.
+    set (n := c_fmt c) in *. set (t := fmt_sig n (inject_Z (rnd_he (x / rfr)) * rfr * c_mult c)) in *.
+    assert (E : inject_Z (rnd_he (t * c_scale c / rfr)) * rfr * c_mult c == t).
+    { rewrite OR. setoid_replace (t * c_scale c * c_mult c) with (t * (c_mult c * c_scale c)) by ring. rewrite MS. ring. }
+    rewrite (fmt_sig_Proper n _ _ E). apply fmt_sig_idem. apply Z.ltb_lt in F. unfold n. lia.
+Qed.
+
+(* a delay below 10^n raster-units... : when the raster-rounded value prints exactly, the token is on the raster *)
+Lemma on_raster_exact rfr c x :
+  is_raster_col c = true -> ~ rfr == 0 ->
+  fmt_sig (c_fmt c) (inject_Z (rnd_he (x / rfr)) * rfr * c_mult c) == inject_Z (rnd_he (x / rfr)) * rfr * c_mult c ->
+  on_raster rfr c (wcol rfr c x).
+Proof.
+  intros R NZ HE. unfold is_raster_col in R. apply andb_true_iff in R. destruct R as [R SK].
+  apply andb_true_iff in R. destruct R as [F P2]. destruct (scale_ok_spec c SK) as [MS _].
+  unfold on_raster. rewrite P2, (wcol_sig rfr c x F), P2.
+  set (N := rnd_he (x / rfr)) in *. set (t := fmt_sig (c_fmt c) (inject_Z N * rfr * c_mult c)) in *.
+  assert (E1 : t * c_scale c == inject_Z N * rfr).
+  { rewrite HE. setoid_replace (inject_Z N * rfr * c_mult c * c_scale c) with (inject_Z N * rfr * (c_mult c * c_scale c)) by ring.
+    rewrite MS. ring. }
+  assert (E2 : t * c_scale c / rfr == inject_Z N).
+  { rewrite E1. field. exact NZ. }
+  rewrite (rnd_he_Proper _ _ E2), rnd_he_inject. symmetry. exact E1.
+Qed.
+
+(* ================================================================================================ *)
+(* G. rows and libraries                                                                             *)
+Fixpoint row_sim (rfr : Q) (cs : list col) (r' r : list Q) : Prop :=
+  match cs, r with
+  | c :: cs', x :: r0 =>
+    match r' with
+    | x' :: r'' => col_sim rfr c x' x /\ row_sim rfr cs' r'' r0
+    | [] => False
+    end
+  | _, _ => r' = []
+  end.
+
+Theorem roundtrip_row rfr cs : cols_ok cs = true -> forall r,
+  row_sim rfr cs (read_row cs (write_row rfr cs r)) r.
+Proof.
+  induction cs as [|c cs IH]; intros OK r.
+  - reflexivity.
+  - cbn [cols_ok forallb] in OK. apply andb_true_iff in OK. destruct OK as [OC OR].
+    destruct r as [|x r].
+    + reflexivity.
+    + cbn [write_row read_row row_sim]. split; [apply col_roundtrip; exact OC|apply IH; exact OR].
+Qed.
+
+Theorem roundtrip_lib rfr cs : cols_ok cs = true -> forall l,
+  Forall2 (row_sim rfr cs) (map (read_row cs) (map (write_row rfr cs) l)) l.
+Proof.
+  intros OK l. induction l as [|r l IH]; cbn [map]; constructor; [apply roundtrip_row; exact OK|exact IH].
+Qed.
+
+Fixpoint row_on_raster (rfr : Q) (cs : list col) (t : list Q) : Prop :=
+  match cs, t with
+  | c :: cs', x :: t' => on_raster rfr c x /\ row_on_raster rfr cs' t'
+  | _, _ => True
+  end.
+
+Theorem rewrite_row rfr cs : cols_ok cs = true -> forall r,
+  row_on_raster rfr cs (write_row rfr cs r) ->
+  write_row rfr cs (read_row cs (write_row rfr cs r)) = write_row rfr cs r.
+Proof.
+  induction cs as [|c cs IH]; intros OK r H.
+  - reflexivity.
+  - cbn [cols_ok forallb] in OK. apply andb_true_iff in OK. destruct OK as [OC OR].
+    destruct r as [|x r]; [reflexivity|].
+    cbn [write_row read_row row_on_raster] in *. destruct H as [H1 H2].
+    rewrite (col_print_idem rfr c x OC H1), (IH OR r H2). reflexivity.
+Qed.
+
+Theorem rewrite_lib rfr cs : cols_ok cs = true -> forall l,
+  Forall (row_on_raster rfr cs) (map (write_row rfr cs) l) ->
+  map (write_row rfr cs) (map (read_row cs) (map (write_row rfr cs) l)) = map (write_row rfr cs) l.
+Proof.
+  intros OK l. induction l as [|r l IH]; intro H; [reflexivity|].
+  cbn [map] in *. inversion H as [|? ? H1 H2]; subst.
+  rewrite (rewrite_row rfr cs OK r H1), (IH H2). reflexivity.
+Qed.
+
+(* sections without a raster-rounded column need no hypothesis *)
+Definition no_raster (cs : list col) : bool := forallb (fun c => negb (c_pre c =? 2)%Z) cs.
+Lemma no_raster_on_raster rfr cs : no_raster cs = true -> forall t, row_on_raster rfr cs t.
+Proof.
+  induction cs as [|c cs IH]; intros H t; [exact I|].
+  cbn [no_raster forallb] in H. apply andb_true_iff in H. destruct H as [H1 H2]. apply negb_true_iff in H1.
+  destruct t as [|x t]; [exact I|]. cbn [row_on_raster]. split; [unfold on_raster; rewrite H1; exact I|apply IH; exact H2].
+Qed.
+
+Theorem rewrite_lib_plain rfr cs : cols_ok cs = true -> no_raster cs = true -> forall l,
+  map (write_row rfr cs) (map (read_row cs) (map (write_row rfr cs) l)) = map (write_row rfr cs) l.
+Proof.
+  intros OK NR l. apply rewrite_lib; [exact OK|]. apply Forall_forall. intros t _. apply no_raster_on_raster. exact NR.
+Qed.
+
+(* ---- [BLOCKS] --------------------------------------------------------------------------------------- *)
+Lemma map_fmt_int_idem l : map fmt_int (map fmt_int l) = map fmt_int l.
+Proof. induction l as [|x l IH]; [reflexivity|]. cbn [map]. rewrite fmt_int_idem, IH. reflexivity. Qed.
+
+Theorem rewrite_block br b : ~ br == 0 ->
+  write_block br (read_block br (write_block br b)) = write_block br b.
+Proof.
+  intro NZ. destruct b as [|id [|dur evs]]; try reflexivity.
+  cbn [write_block read_block]. rewrite fmt_int_idem, map_fmt_int_idem.
+  assert (E : fmt_int (dur / br) * br / br == fmt_int (dur / br)) by (field; exact NZ).
+  rewrite (fmt_int_Proper _ _ E), fmt_int_idem. reflexivity.
+Qed.
+
+Theorem roundtrip_block br id dur evs : 0 < br ->
+  match read_block br (write_block br (id :: dur :: evs)) with
+  | id' :: dur' :: evs' =>
+      (is_int id -> id' == id) /\ Qabs (dur' - dur) <= (1 # 2) * br /\ (is_int (dur / br) -> dur' == dur)
+      /\ evs' = map fmt_int evs
+  | _ => False
+  end.
+Proof.
+  intro P. cbn [write_block read_block]. repeat split.
+  - intro H. apply fmt_int_exact. exact H.
+  - setoid_replace (fmt_int (dur / br) * br - dur) with ((fmt_int (dur / br) - dur / br) * br) by (field; lra).
+    rewrite Qabs_Qmult, (Qabs_pos br) by lra. apply Qmult_le_compat_r; [apply fmt_int_err|lra].
+  - intro H. rewrite (fmt_int_exact _ H). field. lra.
+Qed.
+
+(* ---- [SHAPES] ---------------------------------------------------------------------------------------- *)
+Lemma map_fmt_sig_idem n l : (1 <= n)%Z -> map (fmt_sig n) (map (fmt_sig n) l) = map (fmt_sig n) l.
+Proof. intro H. induction l as [|x l IH]; [reflexivity|]. cbn [map]. rewrite fmt_sig_idem by exact H. rewrite IH. reflexivity. Qed.
+
+Theorem rewrite_shape s : (1 <= shape_sample_fmt)%Z ->
+  write_shape (read_shape (write_shape s)) = write_shape s.
+Proof.
+  intro H. destruct s as [|id [|num data]]; try reflexivity.
+  unfold read_shape. cbn [write_shape]. rewrite !fmt_int_idem, map_fmt_sig_idem by exact H. reflexivity.
+Qed.
+
+(* ---- [DEFINITIONS] ------------------------------------------------------------------------------------ *)
+Lemma key_leb_total a : forall b, key_leb a b = false -> key_leb b a = true.
+Proof.
+  induction a as [|x a IH]; intros [|y b] H; cbn in *; try congruence.
+  destruct (x <? y)%Z eqn:E1; [discriminate|]. destruct (y <? x)%Z eqn:E2; [reflexivity|]. apply IH. exact H.
+Qed.
+
+Fixpoint dsorted {V} (l : list (list Z * V)) : Prop :=
+  match l with
+  | x :: ((y :: _) as r) => key_leb (fst x) (fst y) = true /\ dsorted r
+  | _ => True
+  end.
+
+Lemma ins_def_sorted {V} (x : list Z * V) l : dsorted l -> dsorted (ins_def x l).
+Proof.
+  induction l as [|y r IH]; intro S; [exact I|].
+  cbn [ins_def]. destruct (key_leb (fst x) (fst y)) eqn:E.
+  - cbn [dsorted]. split; [exact E|exact S].
+  - apply key_leb_total in E. destruct r as [|z r'].
+    + cbn. split; [exact E|exact I].
+    + cbn [dsorted] in S. destruct S as [S1 S2]. specialize (IH S2).
+      cbn [ins_def] in *. destruct (key_leb (fst x) (fst z)); cbn [dsorted] in *; tauto.
+Qed.
+
+Lemma sort_defs_sorted {V} (l : list (list Z * V)) : dsorted (sort_defs l).
+Proof. induction l as [|x l IH]; [exact I|]. cbn [sort_defs fold_right]. apply ins_def_sorted. exact IH. Qed.
+
+Lemma sort_defs_id {V} (l : list (list Z * V)) : dsorted l -> sort_defs l = l.
+Proof.
+  induction l as [|x l IH]; intro S; [reflexivity|].
+  cbn [sort_defs fold_right]. fold (sort_defs l).
+  destruct l as [|y r]; [reflexivity|]. cbn [dsorted] in S. destruct S as [S1 S2].
+  rewrite (IH S2). cbn [ins_def]. rewrite S1. reflexivity.
+Qed.
+
+Lemma dsorted_map {V W} (f : V -> W) (l : list (list Z * V)) :
+  dsorted l -> dsorted (map (fun kv => (fst kv, f (snd kv))) l).
+Proof.
+  induction l as [|x l IH]; intro S; [exact I|].
+  destruct l as [|y r]; [exact I|]. cbn [dsorted] in S. destruct S as [S1 S2].
+  cbn [map dsorted fst]. split; [exact S1|apply IH; exact S2].
+Qed.
+
+Theorem rewrite_defs d : (1 <= def_fmt)%Z -> write_defs (write_defs d) = write_defs d.
+Proof.
+  intro H. unfold write_defs at 1.
+  rewrite sort_defs_id by (unfold write_defs; apply dsorted_map; apply sort_defs_sorted).
+  unfold write_defs. rewrite map_map. apply map_ext. intros [k v]. cbn [fst snd].
+  rewrite map_fmt_sig_idem by exact H. reflexivity.
+Qed.
+
+(* ================================================================================================ *)
+(* H. the generated tables                                                                           *)
+Lemma tables_ok_true : tables_ok = true.
+Proof. vm_compute. reflexivity. Qed.
+
+Lemma section_cols_ok sec : In sec all_sections -> cols_ok sec = true.
+Proof. intro H. pose proof tables_ok_true as T. unfold tables_ok in T. rewrite forallb_forall in T. apply T. exact H. Qed.
+
+Theorem scale_inverse sec c : In sec all_sections -> In c sec -> c_mult c * c_scale c == 1.
+Proof.
+  intros HS HC. pose proof (section_cols_ok sec HS) as OK. unfold cols_ok in OK. rewrite forallb_forall in OK.
+  specialize (OK c HC). unfold col_ok, is_int_col, is_sig_col, is_raster_col in OK.
+  assert (SK : scale_ok c = true).
+  { destruct (scale_ok c); [reflexivity|]. rewrite !andb_false_r in OK. discriminate OK. }
+  apply scale_ok_spec in SK. tauto.
+Qed.
